@@ -258,6 +258,16 @@ let handle kind c =
              (let s = show_obs real in if String.length s > 300 then String.sub s 0 300 else s)
              (let s = show_obs spec in if String.length s > 300 then String.sub s 0 300 else s))
     end
+  | "lockout" ->
+    let meta = next_bytes c in
+    let how = next_bytes c in
+    let (data, sr) = read_file_tok c in
+    let found = match sr with Some ((((_, m), _), _), _) -> "metadata in the file: " ^ clip300 (String.escaped (str m))
+                            | None -> "the file does not follow the v1 layout" in
+    ignore data;
+    prop "own-file-refused"
+      (Printf.sprintf "the writer that created the file with metadata %s cannot open it any more %s (%s)"
+         (clip300 (String.escaped (str meta))) (str how) found)
   | "runaway" ->
     let nops = next_int c in
     let before = next_n c in
